@@ -277,6 +277,8 @@ thread_local! {
     static BUILDS_OK: Cell<u64> = const { Cell::new(0) };
     static BUILDS_RETRIED: Cell<u64> = const { Cell::new(0) };
     static MAX_ATTEMPTS: Cell<u64> = const { Cell::new(0) };
+    static BUILDS_SLOW: Cell<u64> = const { Cell::new(0) };
+    static ABANDONED: Cell<u64> = const { Cell::new(0) };
     static PAIRS: Cell<u64> = const { Cell::new(0) };
     static UNALIGNED: Cell<u64> = const { Cell::new(0) };
 }
@@ -319,6 +321,7 @@ fn run_func<W: Wd, F>(
         s.cfg.show(n)
     );
     c.describe(|| input.clone());
+    let was_degraded = degraded();
     let t0 = std::time::Instant::now();
     let r = catch(build);
     let secs = t0.elapsed().as_secs_f64();
@@ -333,11 +336,23 @@ fn run_func<W: Wd, F>(
         Ok(Err(e)) => {
             let es = format!("{:#}", e);
             if kst.noprog.get() || vst.noprog.get() || err_contains(&e, TAG_NOPROG) {
+                if was_degraded {
+                    // a no-progress violation was already recorded in this process: abandoned, no verdict
+                    bump(&ABANDONED, 1);
+                    return;
+                }
+                NOPROG_SEEN.store(true, std::sync::atomic::Ordering::Relaxed);
                 c.fail(
                     "try_build_func",
                     "no-progress",
-                    "more than 64 attempts",
-                    &format!("the build rewound its input more than {} times without succeeding; {}; {}", MAX_REWINDS, input, progress()),
+                    "the build does not terminate: attempt bound exceeded",
+                    &format!(
+                        "the build rewound its input more than {} times without succeeding (bound for n={}); {}; {}",
+                        attempt_limit(n),
+                        n,
+                        input,
+                        progress()
+                    ),
                 );
             } else {
                 c.fail("try_build_func", "err", &es, &format!("try_build_func returned Err({}) on distinct keys; {}; {}", es, input, progress()));
@@ -349,6 +364,9 @@ fn run_func<W: Wd, F>(
     bump(&BUILDS_OK, 1);
     if attempts > 1 {
         bump(&BUILDS_RETRIED, 1);
+    }
+    if attempts > SOFT_ATTEMPTS as u64 {
+        bump(&BUILDS_SLOW, 1);
     }
     MAX_ATTEMPTS.with(|m| m.set(m.get().max(attempts)));
     // every pass over the keys must have been accompanied by a pass over the values
@@ -569,7 +587,7 @@ fn rand_knobs(r: &mut SmallRng, cfg: &mut Cfg) {
     cfg.low_mem = pick(r, &[None, Some(false), Some(true)]);
     let (a, b) = (r.random::<u64>(), r.random::<u64>());
     cfg.seed = pick(r, &[0, 0, 1, 42, a, b]);
-    cfg.log2_buckets = if cfg.offline { pick(r, &[None, Some(0), Some(4), Some(8)]) } else { pick(r, &[None, Some(0), Some(4), Some(8), Some(10)]) };
+    cfg.log2_buckets = if cfg.offline { pick(r, &[Some(0), Some(2), Some(4)]) } else { pick(r, &[None, Some(0), Some(4), Some(8), Some(10)]) };
     cfg.eps = pick(r, &[None, Some(0.001), Some(0.01), Some(0.1)]);
 }
 
@@ -585,9 +603,15 @@ fn main() {
     let thorough = ctx.thorough();
     let lim = Lim { max_n: if debug { 200_000 } else if san { 100_000 } else { usize::MAX }, huge_hint: !san };
     let mut r = ctx.rng(7);
+    let timing = timing_enabled();
     let mut run = |ctx: &mut Ctx, v: usize, s: Scn| {
         let var = &VARIANTS[v];
+        let t0 = cpu_secs();
+        let runs = ctx.next_runs();
         ctx.case(var.name, &s.stratum(), "build+get", |c| (var.run)(c, &s));
+        if runs && timing {
+            eprintln!("TIME {:.4} {} n={} {}", cpu_secs() - t0, s.group, s.n, s.cfg.show(s.n));
+        }
     };
 
     // 1. every n in 0..=300, for each shard/edge logic (variant, hint, values, knobs rotate/random)
@@ -770,9 +794,11 @@ fn main() {
     }
 
     let counters = format!(
-        "{{\"builds_ok\":{},\"builds_needing_retries\":{},\"pairs_checked\":{},\"unaligned_pairs_checked\":{}}}",
+        "{{\"builds_ok\":{},\"builds_needing_retries\":{},\"slow_convergence_builds_over_64_attempts\":{},\"abandoned_after_a_no_progress_violation\":{},\"pairs_checked\":{},\"unaligned_pairs_checked\":{}}}",
         BUILDS_OK.with(|c| c.get()),
         BUILDS_RETRIED.with(|c| c.get()),
+        BUILDS_SLOW.with(|c| c.get()),
+        ABANDONED.with(|c| c.get()),
         PAIRS.with(|c| c.get()),
         UNALIGNED.with(|c| c.get())
     );
